@@ -229,6 +229,8 @@ class KindInference:
                 env.setdefault(p.arg, UNK)
         self._fi = fi
         self._rets: list = []
+        if fi.parent is None:
+            self._alias = _exponent_aliases(fi.node)
         self.block(fi.node.body, env, fi)
         want = self.RET.get(fi.qual)
         if want is not None:
@@ -375,7 +377,7 @@ class KindInference:
                     self.check_sink(fi, node, g, w, f"{what}[{i}]", f"{key}[{i}]")
             return
         if isinstance(want, Dim):
-            if isinstance(got, Dim) and got != want:
+            if isinstance(got, Dim) and not self._same_dim(got, want):
                 self.report("sink", fi, node, f"{what} must be {want}, got {got}: `{' '.join(src(node).split())[:100]}`", f"{key}|{got}")
             elif isinstance(got, Lit) and not want.zero and got.v not in (0, None) and got.v not in (float("inf"), float("-inf")):
                 self.report("absolute", fi, node, f"{what} must be {want} but receives the bare literal {got.v}", f"{key}|lit{got.v}")
@@ -499,9 +501,22 @@ class KindInference:
             return self.dim(e.value, env, fi)
         return UNK
 
+    def _same_dim(self, a, b) -> bool:
+        """equality of kinds, modulo the identification of a local used as a symbolic exponent with the attribute it is stored to
+        (`mu = ...; a = w / T**mu; self.muMinLowT, self.aMinLowT = mu, a`)"""
+        if a == b:
+            return True
+        al = getattr(self, "_alias", None)
+        if al and isinstance(a, Dim) and isinstance(b, Dim):
+            try:
+                return sp.simplify(a.q.subs(al) - b.q.subs(al)) == 0
+            except Exception:
+                return False
+        return False
+
     def same_kind(self, a, b, node, fi, what):
         if isinstance(a, Dim) and isinstance(b, Dim):
-            if a != b:
+            if not self._same_dim(a, b):
                 self.report("conflict", fi, node, f"{what} of {a} with {b}: `{' '.join(src(node).split())[:110]}`", f"{what}|{a}|{b}")
             return a
         for x, y in ((a, b), (b, a)):
@@ -860,6 +875,28 @@ def _same(a, b) -> bool:
 
 def _sig(w) -> str:
     return str(w)
+
+
+def _exponent_aliases(fn: ast.AST) -> dict:
+    """{Symbol(local): Symbol(attribute)} for locals that are stored to / loaded from exactly one self attribute:
+    `self.muMinLowT = mu`, `(self.muMinLowT, self.aMinLowT) = (mu, a)`, `mu = self.muMinLowT`"""
+    pairs: dict[str, set] = {}
+
+    def pair(t, v):
+        if isinstance(t, (ast.Tuple, ast.List)) and isinstance(v, (ast.Tuple, ast.List)) and len(t.elts) == len(v.elts):
+            for a, b in zip(t.elts, v.elts):
+                pair(a, b)
+            return
+        for x, y in ((t, v), (v, t)):
+            if isinstance(x, ast.Attribute) and isinstance(x.value, ast.Name) and x.value.id == "self" and isinstance(y, ast.Name):
+                pairs.setdefault(y.id, set()).add(x.attr)
+
+    for st in ast.walk(fn):
+        if isinstance(st, ast.Assign) and len(st.targets) == 1:
+            pair(st.targets[0], st.value)
+        elif isinstance(st, ast.AnnAssign) and st.value is not None:
+            pair(st.target, st.value)
+    return {sp.Symbol(k): sp.Symbol(next(iter(v))) for k, v in pairs.items() if len(v) == 1}
 
 
 def _exponent_term(node: ast.AST):
